@@ -160,6 +160,25 @@ pub fn run_c03(ctx: &RunCtx) {
 
 fn extreme_templates() -> Vec<String> {
     let mut v: Vec<String> = vec![];
+    // every sequence of up to three include-like statements (library, missing file, malformed
+    // path, below global scope) around ordinary statements: none of them reads a file, all of
+    // them parse cleanly
+    let inc = [
+        "include \"stdgates.inc\";",
+        "include \"missing_file.inc\";",
+        "include \"a\\qb.inc\";",
+        "if (true) { include \"missing_too.inc\"; }",
+        "int between = 1;",
+    ];
+    for a in inc {
+        v.push(format!("{a}\nqubit q;"));
+        for b in inc {
+            v.push(format!("{a}\n{b}\nqubit q;"));
+            for c in inc {
+                v.push(format!("{a}\n{b}\n{c}\nqubit q; h q;"));
+            }
+        }
+    }
     let big = [
         "0", "1", "255", "4294967295", "4294967296", "4294967297", "18446744073709551615", "18446744073709551616",
         "340282366920938463463374607431768211455", "340282366920938463463374607431768211456",
